@@ -93,6 +93,10 @@ CaseOf ==
   ELSE IF last.op = "cmp" THEN
     [op |-> "PlainMonthDay.cmp", cls |-> CmpCls("md", last.a, last.b),
      args |-> [a |-> JsonMdRoute(last.a), b |-> JsonMdRoute(last.b)], out |-> last.out]
+  ELSE IF last.op \in {"addFull", "subtractFull"} THEN
+    [op |-> IF last.op = "addFull" THEN "PlainYearMonth.add" ELSE "PlainYearMonth.subtract", cls |-> "with-days-or-hours/" \o last.out.kind,
+     args |-> [recv |-> last.recv, dur |-> Dur10(FromInt(last.dur.y), FromInt(last.dur.mo), FromInt(last.dur.w), FromInt(last.dur.d), FromInt(last.dur.h), Zero, Zero, Zero, Zero, Zero), ovf |-> last.ovf],
+     out |-> last.out]
   ELSE IF last.op \in {"add", "subtract"} THEN
     [op |-> "PlainYearMonth." \o last.op, cls |-> ArithCls(last.recv, last.recv) \o "/" \o (IF last.out.kind = "ok" THEN "ok" ELSE "beyond"),
      args |-> [recv |-> last.recv, dur |-> DateDur(last.dur.y, last.dur.mo, 0, 0), ovf |-> last.ovf], out |-> OutFor(last.out)]
